@@ -94,6 +94,10 @@ pub enum Call {
     /// the located key must be the same on every call (garde / validator)
     ValidFuzzyGarde,
     ValidFuzzyValidator,
+    /// a user value whose `Drop` makes a deserialization call of its own; the value's last reference is
+    /// held by the anchor table of a failing (`ok: false`) or succeeding (`ok: true`, last-wins duplicate key)
+    /// document, so the inner call runs while that table is being torn down
+    DropReenters { ok: bool, arc: bool },
     /// outer document with three nest points; the inner call runs at nest point k (3 = never)
     NestRc { k: u8, inner: Box<Call> },
     /// the nest point sits inside an anchored node deserialized into an RcAnchor (anchor context stack not empty)
@@ -104,7 +108,11 @@ pub enum Call {
 /// marker with which a call reports that its result with a nested call differs from the flat equivalent
 const NESTED_MISMATCH: &str = "NESTED-VS-FLAT-MISMATCH";
 
-pub const BASIC: [Call; 56] = [
+pub const BASIC: [Call; 60] = [
+    Call::DropReenters { ok: false, arc: false },
+    Call::DropReenters { ok: true, arc: false },
+    Call::DropReenters { ok: false, arc: true },
+    Call::DropReenters { ok: true, arc: true },
     Call::SerYaml12 { on: true },
     Call::SerYaml12 { on: false },
     Call::SerNamedAnchorsNested,
@@ -196,6 +204,23 @@ impl<'de> Deserialize<'de> for NestField {
         }
         let _ = String::deserialize(d)?;
         Ok(NestField)
+    }
+}
+
+/// A value that makes a call of its own when it is dropped; the inner result goes to NEST_LOG and is
+/// compared with the isolation entry of that inner call.
+#[derive(Debug)]
+struct DropCalls(#[allow(dead_code)] i32);
+impl<'de> Deserialize<'de> for DropCalls {
+    fn deserialize<D: serde::Deserializer<'de>>(d: D) -> Result<Self, D::Error> {
+        Ok(DropCalls(i32::deserialize(d)?))
+    }
+}
+impl Drop for DropCalls {
+    fn drop(&mut self) {
+        let inner = Call::OkJsonAnchors;
+        let r = run_call(&inner);
+        let _ = NEST_LOG.try_with(|l| l.borrow_mut().push((inner, r)));
     }
 }
 
@@ -475,6 +500,38 @@ pub fn run_call(c: &Call) -> String {
             res(guard(|| serde_saphyr::from_reader::<_, RcDoc>(rd)), |d| {
                 format!("a={} b={} c={} ab={}", d.a.0, d.b.0, d.c.0, std::rc::Rc::ptr_eq(&d.a.0, &d.b.0))
             })
+        }
+        Call::DropReenters { ok, arc } => {
+            #[allow(deprecated)]
+            let opts = serde_saphyr::options! { duplicate_keys: serde_saphyr::DuplicateKeyPolicy::LastWins };
+            match (*ok, *arc) {
+                (false, false) => res(
+                    guard(|| serde_saphyr::from_str::<Vec<serde_saphyr::RcAnchor<DropCalls>>>("- &a 1\n- oops\n")),
+                    |v| format!("{}", v.len()),
+                ),
+                (false, true) => res(
+                    guard(|| serde_saphyr::from_str::<Vec<serde_saphyr::ArcAnchor<DropCalls>>>("- &a 1\n- oops\n")),
+                    |v| format!("{}", v.len()),
+                ),
+                (true, false) => res(
+                    guard(|| {
+                        serde_saphyr::from_str_with_options::<BTreeMap<String, serde_saphyr::RcAnchor<DropCalls>>>(
+                            "k: &a 1\nk: &b 2\n",
+                            opts,
+                        )
+                    }),
+                    |v| format!("{:?}", v.keys().collect::<Vec<_>>()),
+                ),
+                (true, true) => res(
+                    guard(|| {
+                        serde_saphyr::from_str_with_options::<BTreeMap<String, serde_saphyr::ArcAnchor<DropCalls>>>(
+                            "k: &a 1\nk: &b 2\n",
+                            opts,
+                        )
+                    }),
+                    |v| format!("{:?}", v.keys().collect::<Vec<_>>()),
+                ),
+            }
         }
         Call::ReaderArc { second } => {
             let text: &[u8] = if *second { b"a: &s beta\nb: *s\n" } else { b"a: &s alpha\nb: *s\n" };
@@ -1021,6 +1078,53 @@ pub struct HistoryCase {
     pub threads: Vec<Vec<Call>>,
     /// scheduler decisions (index among live threads) for every hand-over point; empty for one thread
     pub decisions: Vec<usize>,
+    /// single-thread histories only: a call made from the destructor of a thread-local that was initialised
+    /// before the thread's first call, i.e. while the thread is torn down and after the crate's own
+    /// thread-locals (registered later) have been destroyed
+    #[serde(default, skip_serializing_if = "Option::is_none")]
+    pub teardown: Option<Call>,
+}
+
+/// calls that may be made during thread teardown (none of them touches a thread-local of the harness)
+pub const TEARDOWN: [Call; 10] = [
+    Call::OkCfg,
+    Call::OkJsonAnchors,
+    Call::FailMidAnchor,
+    Call::RcShare,
+    Call::RcFailInside,
+    Call::ArcShare,
+    Call::Recursive,
+    Call::MissingNested,
+    Call::BudgetBreach,
+    Call::SerShared,
+];
+
+struct TeardownProbe {
+    call: Call,
+    out: std::sync::Arc<Mutex<Option<String>>>,
+}
+impl Drop for TeardownProbe {
+    fn drop(&mut self) {
+        let r = run_call(&self.call);
+        *self.out.lock().unwrap() = Some(r);
+    }
+}
+thread_local! {
+    static TEARDOWN_PROBE: RefCell<Option<TeardownProbe>> = const { RefCell::new(None) };
+}
+
+/// Run a single-thread history on a fresh thread; the teardown call, if any, is armed before the first call.
+fn run_single(h: Vec<Call>, teardown: Option<Call>) -> (ThreadOut, Option<String>) {
+    let slot = std::sync::Arc::new(Mutex::new(None));
+    let s2 = slot.clone();
+    let o = fresh(move || {
+        if let Some(call) = teardown {
+            TEARDOWN_PROBE.with(|t| *t.borrow_mut() = Some(TeardownProbe { call, out: s2 }));
+        }
+        run_history(&h)
+    });
+    let t = slot.lock().unwrap().take();
+    (o, t)
 }
 
 struct ThreadOut {
@@ -1049,7 +1153,10 @@ fn run_history(h: &[Call]) -> ThreadOut {
 pub fn show(c: &HistoryCase) {
     for h in &c.threads {
         let h2 = h.clone();
-        let o = fresh(move || run_history(&h2));
+        let (o, t) = run_single(h2, c.teardown.clone());
+        if let (Some(tc), Some(tr)) = (&c.teardown, &t) {
+            println!("teardown {} => {tr}\n    isolated: {:?}", short_call(tc), isolated(tc));
+        }
         for (call, own, inner) in o.results {
             println!("{} => {own}\n    isolated: {:?}", short_call(&call), isolated(&call));
             for (ic, ir) in inner {
@@ -1064,9 +1171,11 @@ pub fn exec(c: &HistoryCase, st: &mut Stats) -> Vec<Viol> {
     let n = c.threads.len();
     let outs: Vec<ThreadOut>;
     let mut handovers = 0u64;
+    let mut torn: Option<String> = None;
     if n == 1 {
-        let h = c.threads[0].clone();
-        outs = vec![fresh(move || run_history(&h))];
+        let (o, t) = run_single(c.threads[0].clone(), c.teardown.clone());
+        outs = vec![o];
+        torn = t;
     } else {
         let baton = Baton::new(n, c.decisions.clone());
         let mut handles = Vec::new();
@@ -1107,6 +1216,26 @@ pub fn exec(c: &HistoryCase, st: &mut Stats) -> Vec<Viol> {
     st.behaviours.insert(sched_digest);
     if n > 1 || c.threads[0].len() > 1 || c.threads[0].iter().any(|x| matches!(x, Call::NestRc { .. } | Call::NestRecursive { .. } | Call::NestInsideAnchor { .. })) {
         st.nontrivial.insert(sched_digest);
+    }
+    if let (1, Some(tc)) = (n, &c.teardown) {
+        st.bump("fired.call_during_thread_teardown");
+        let got = torn.unwrap_or_else(|| "<teardown call never ran>".to_string());
+        st.note(&got);
+        match isolated(tc) {
+            Ok(want) if want != got => out.push(Viol {
+                property: "C15".into(),
+                clause: "teardown-call-differs-from-isolation".into(),
+                detail: format!(
+                    "{} made from a thread-local destructor after {} earlier calls: {:?}, on a fresh thread {:?}",
+                    short_call(tc),
+                    c.threads[0].len(),
+                    got,
+                    want
+                ),
+                case: Case::C15(c.clone()),
+            }),
+            _ => {}
+        }
     }
     for (ti, o) in outs.iter().enumerate() {
         st.add("steps.probe_callbacks", o.callbacks);
@@ -1154,6 +1283,7 @@ pub fn exec(c: &HistoryCase, st: &mut Stats) -> Vec<Viol> {
                         case: Case::C15(HistoryCase {
                             threads: vec![vec![without_nesting(call)]],
                             decisions: vec![],
+                            teardown: None,
                         }),
                     }),
                 }
@@ -1278,8 +1408,8 @@ pub fn total(tier: Tier) -> u64 {
     let core = CORE.len() as u64;
     let nest = all_nestings().len() as u64;
     match tier {
-        Tier::Quick => a + a * a + core * core * core + nest + core * core * 3 + 6000,
-        Tier::Thorough => a + a * a + a * a * a + core.pow(4) + nest + core * core * 3 + 150_000,
+        Tier::Quick => a + (a + 1) * TEARDOWN.len() as u64 + a * a + core * core * core + nest + core * core * 3 + 6000,
+        Tier::Thorough => a + (a + 1) * TEARDOWN.len() as u64 + a * a + a * a * a + core.pow(4) + nest + core * core * 3 + 150_000,
     }
 }
 
@@ -1293,6 +1423,7 @@ pub fn gen_case(tier: Tier, seed: u64, idx: u64) -> Case {
         Case::C15(HistoryCase {
             threads: vec![h],
             decisions: vec![],
+            teardown: None,
         })
     };
     let mut i = idx;
@@ -1300,6 +1431,17 @@ pub fn gen_case(tier: Tier, seed: u64, idx: u64) -> Case {
         return single(vec![alpha[i as usize].clone()]);
     }
     i -= a;
+    // every call of the alphabet (and the empty history), then each teardown call from a thread-local destructor
+    let td = TEARDOWN.len() as u64;
+    if i < (a + 1) * td {
+        let first = i / td;
+        return Case::C15(HistoryCase {
+            threads: vec![if first == a { vec![] } else { vec![alpha[first as usize].clone()] }],
+            decisions: vec![],
+            teardown: Some(TEARDOWN[(i % td) as usize].clone()),
+        });
+    }
+    i -= (a + 1) * td;
     if i < a * a {
         return single(vec![alpha[(i / a) as usize].clone(), alpha[(i % a) as usize].clone()]);
     }
@@ -1351,6 +1493,7 @@ pub fn gen_case(tier: Tier, seed: u64, idx: u64) -> Case {
         return Case::C15(HistoryCase {
             threads: vec![vec![a.clone(), b.clone()], vec![b, a]],
             decisions,
+            teardown: None,
         });
     }
     // random: longer single-thread histories and 2..3 client threads
@@ -1374,11 +1517,32 @@ pub fn gen_case(tier: Tier, seed: u64, idx: u64) -> Case {
     } else {
         vec![]
     };
-    Case::C15(HistoryCase { threads, decisions })
+    let teardown = if nthreads == 1 && rng.chance(1, 3) {
+        Some(TEARDOWN[rng.below(TEARDOWN.len())].clone())
+    } else {
+        None
+    };
+    Case::C15(HistoryCase {
+        threads,
+        decisions,
+        teardown,
+    })
 }
 
 pub fn shrink(c: &HistoryCase) -> Vec<Case> {
     let mut out = Vec::new();
+    if c.teardown.is_some() {
+        let mut n = c.clone();
+        n.teardown = None;
+        out.push(Case::C15(n));
+        for t in TEARDOWN.iter().take(2) {
+            if Some(t) != c.teardown.as_ref() {
+                let mut n = c.clone();
+                n.teardown = Some(t.clone());
+                out.push(Case::C15(n));
+            }
+        }
+    }
     // drop client threads
     if c.threads.len() > 1 {
         for i in 0..c.threads.len() {
@@ -1386,6 +1550,8 @@ pub fn shrink(c: &HistoryCase) -> Vec<Case> {
             n.threads.remove(i);
             if n.threads.len() == 1 {
                 n.decisions.clear();
+            } else {
+                n.teardown = None;
             }
             out.push(Case::C15(n));
         }
